@@ -142,6 +142,52 @@ def spec_violations(case, r):
     return v
 
 
+def fastq_as_case(fc, res):
+    """the HandleLimiter-level case a FastqHandle run amounts to (strings = str(record) as reported)"""
+    ops = []
+    for pair, strs in zip(fc['pairs'], res.get('strings', [])):
+        for (tags, _s, _q), R, s in zip(pair, ('R1', 'R2'), strs):
+            t = dict(tags)
+            fn = '%s.%s.%s.%s.fastq.gz' % (fc['prefix'], t.get('bi', 'no_cell_id'), t.get('MX', 'unk'), R)
+            ops.append([fc['names'][fn], s, 0])
+    cfg = res.get('cfg', {'maxHandles': fc['maxHandles'], 'pruneEvery': 10000})
+    return {'maxHandles': cfg['maxHandles'], 'pruneEvery': cfg['pruneEvery'], 'script': fc['script'], 'init': [],
+            'ops': ops, 'plain': [], 'univ': sorted(fc['names'].values())}
+
+
+def bam_expected(res):
+    """per sanitised tag value: the ids of the reads carrying it, in input order"""
+    exp = {}
+    for i, v in enumerate(res['san']):
+        if v is not None:
+            exp.setdefault(v, []).append(i)
+    return exp
+
+
+def bam_violations(case, res):
+    """C19_bamsplit / C19_bamsplit_handles transcribed, evaluated on the implementation's outcome"""
+    if res.get('error'):
+        return [('harness-error', 'the harness could not run the case: ' + res['error'])]
+    v = []
+    exp = bam_expected(res)
+    if case['max_handles'] >= 1 or not exp:
+        if res['status'] != 0:
+            v.append(('bamsplit-no-termination' if res['status'] == 'livelock' else 'bamsplit-raised',
+                      'the split loop did not complete: %s' % res['status']))
+        else:
+            if res['files'] != exp:
+                bad = sorted(k for k in set(exp) | set(res['files']) if exp.get(k) != res['files'].get(k))[:3]
+                v.append(('bamsplit-content', 'output files differ from the reads per tag value: ' + '; '.join(
+                    '%s.bam holds reads %r, the input has %r' % (k, res['files'].get(k), exp.get(k)) for k in bad)))
+            if res['done'] != sorted(exp):
+                v.append(('bamsplit-done', 'values reported done %r, values present %r' % (res['done'], sorted(exp))))
+    if res['max_open'] > max(0, case['max_handles']):
+        v.append(('bamsplit-handles', '%d output files open at once, max_handles=%d' % (res['max_open'], case['max_handles'])))
+    if res.get('still_open'):
+        v.append(('bamsplit-leak', '%d output files never closed' % res['still_open']))
+    return v
+
+
 class Prop(fw.PropBase):
     ID = 'C19'
     PROPS = 'Props/C19.v'
@@ -267,17 +313,20 @@ class Prop(fw.PropBase):
                         'script': sc, 'pairs': pairs, 'names': names})
         return out
 
-    def fastq_as_case(self, fc, res):
-        """the HandleLimiter-level case a FastqHandle run amounts to (strings = str(record) as reported)"""
-        ops = []
-        for pair, strs in zip(fc['pairs'], res.get('strings', [])):
-            for (tags, _s, _q), R, s in zip(pair, ('R1', 'R2'), strs):
-                t = dict(tags)
-                fn = '%s.%s.%s.%s.fastq.gz' % (fc['prefix'], t.get('bi', 'no_cell_id'), t.get('MX', 'unk'), R)
-                ops.append([fc['names'][fn], s, 0])
-        cfg = res.get('cfg', {'maxHandles': fc['maxHandles'], 'pruneEvery': 10000})
-        return {'maxHandles': cfg['maxHandles'], 'pruneEvery': cfg['pruneEvery'], 'script': fc['script'], 'init': [],
-                'ops': ops, 'plain': [], 'univ': sorted(fc['names'].values())}
+    def bamsplit_cases(self):
+        rng = self.rng
+        out = [{'max_handles': 2, 'reads': ['a', 'b', None, 'a', 'c d', 'b', "c'_d", 'c_d']},
+               {'max_handles': 0, 'reads': ['a']}, {'max_handles': 0, 'reads': [None, None]},
+               {'max_handles': 1, 'reads': []}, {'max_handles': -1, 'reads': ['x', 'y']}]
+        for j in range(25 if self.tier == 'quick' else 300):
+            nv = rng.choice([1, 2, 3, 5, 9, 30])
+            vals = ['cell%d' % i for i in range(nv)]
+            if rng.random() < 0.3:
+                vals += ['cell 0', "cell'1", 'x/y', 7]
+            n = rng.randint(0, 60) if nv < 30 else rng.randint(60, 250)
+            reads = [rng.choice(vals) if rng.random() > 0.1 else None for _ in range(n)]
+            out.append({'max_handles': rng.choice([1, 1, 2, 3, 4, 10, 400]), 'reads': reads})
+        return out
 
     def rlimit_cases(self):
         rng = self.rng
@@ -315,12 +364,15 @@ class Prop(fw.PropBase):
         for a in range(0, len(cases), chunk):
             part = fw.run_impl('impl_c19.py', {'cases': cases[a:a + chunk]})
             res['cases'] += part['cases']
-        part = fw.run_impl('impl_c19.py', {'fastq': fq, 'rlimit': rl})
+        bs = self.bamsplit_cases()
+        part = fw.run_impl('impl_c19.py', {'fastq': fq, 'rlimit': rl, 'bamsplit': bs})
         res['fastq'], res['rlimit'] = part['fastq'], part['rlimit']
+        self.bruns = list(zip(bs, part['bamsplit']))
+        self.fastq_inputs = fq
         # every run as (label, HandleLimiter-level case, impl result)
         runs = [('limiter', c, r) for c, r in zip(cases, res['cases'])]
         for fc, r in zip(fq, res['fastq']):
-            runs.append(('fastq', self.fastq_as_case(fc, r) if not r.get('error') else None, r))
+            runs.append(('fastq', fastq_as_case(fc, r) if not r.get('error') else None, r))
         for c, r in zip(rl, res['rlimit']):
             c2 = dict(c)
             if not r.get('error'):
@@ -328,7 +380,7 @@ class Prop(fw.PropBase):
             runs.append(('rlimit', c2, r))
         self.runs = runs
         self.sizes = {'corpus': len(corpus), 'random': len(rnd), 'large': len(big), 'exhaustive_small': len(exh),
-                      'fastq_end_to_end': len(fq), 'real_rlimit': len(rl)}
+                      'fastq_end_to_end': len(fq), 'real_rlimit': len(rl), 'bamSplitByTag': len(bs)}
         return runs
 
     def correspondence(self):
@@ -354,7 +406,7 @@ class Prop(fw.PropBase):
             if script_good(c) and fa_consistent(c['ops']):
                 good += 1
         self.cov.update({
-            'evaluations': len(runs),
+            'evaluations': len(runs) + len(self.bruns),
             'distinct_nontrivial': len(nt),
             'rule': 'a run = one HandleLimiter (or FastqHandle single_cell) life: write sequence x maxHandles x pruneEvery x '
                     'fault script x pre-existing files; non-trivial = at least one open() failed or one file was re-opened '
@@ -372,7 +424,7 @@ class Prop(fw.PropBase):
             'samples': [{'case': {k: v for k, v in c.items()}, 'impl': {k: r.get(k) for k in ('k', 'status', 'trace', 'files')}}
                         for l, c, r in ok_runs[len(ok_runs) // 3: len(ok_runs) // 3 + 2] if len(c['ops']) < 15][:2],
         })
-        harness_err = [r['error'] for l, c, r in runs if r.get('error')]
+        harness_err = [r['error'] for l, c, r in runs if r.get('error')] + [r['error'] for c, r in self.bruns if r.get('error')]
         if harness_err:
             raise fw.Broken('correspondence', 'implementation runner failed on %d cases; first: %s' % (len(harness_err), harness_err[0]))
         if not self.model_ok:
@@ -383,6 +435,30 @@ class Prop(fw.PropBase):
             d = first_diff(canon_model(mv), canon_impl(r))
             if d:
                 dis.append({'entry': l, 'case': c, 'diff': d})
+        # bamSplitByTag: model mode 3 on the sanitised tag values
+        bin_, bmaps = [], []
+        for c, r in self.bruns:
+            ids = {}
+            for v in r['san']:
+                if v is not None:
+                    ids.setdefault(v, len(ids) + 1)
+            bmaps.append(ids)
+            bin_.append([c['max_handles'], [[[ids[v]] if v is not None else [], i] for i, v in enumerate(r['san'])],
+                         sorted(ids.values())])
+        bout = fw.run_model('C19', 3, bin_)
+        for (c, r), ids, mv in zip(self.bruns, bmaps, bout):
+            inv = {i: v for v, i in ids.items()}
+            if mv == [0]:
+                mcanon = {'status': 'livelock'}
+            else:
+                mcanon = {'status': 0, 'done': sorted(inv[i] for i in mv[1]), 'passes': mv[2],
+                          'files': {inv[p]: c0[0] for p, c0 in mv[3] if c0}}
+            icanon = {'status': r['status']} if r['status'] != 0 else \
+                {'status': 0, 'done': r['done'], 'passes': r['passes'], 'files': r['files']}
+            if mcanon != icanon:
+                dis.append({'entry': 'bamSplitByTag', 'case': c, 'diff': 'model %r impl %r' % (mcanon, icanon)})
+        self.cov['bamsplit_runs_compared'] = len(self.bruns)
+        self.cov['bamsplit_multi_pass_runs'] = sum(1 for c, r in self.bruns if r.get('passes', 0) > 1)
         # the boolean specification of the theorem (Model.specb, mode 2) on the implementation's outcome
         spec_in = [model_input(c) + [r['k'], [[p, ([s] if s is not None else [])] for p, s in r['files']]] for l, c, r in ok_runs]
         sb = fw.run_model('C19', 2, spec_in)
@@ -395,6 +471,10 @@ class Prop(fw.PropBase):
         idx = sorted(self.rng.sample(small, min(100, len(small))))
         okv, nm, log = fw.vm_crosscheck('C19', 0, [(model_input(ok_runs[i][1]), mouts[i]) for i in idx])
         self.cov['vm_compute_crosscheck'] = {'cases': len(idx), 'mismatches': nm}
+        if okv:
+            bsmall = [i for i, b in enumerate(bin_) if len(b[1]) <= 60][:20]
+            okv, nm2, log = fw.vm_crosscheck('C19', 3, [(bin_[i], bout[i]) for i in bsmall])
+            self.cov['vm_compute_crosscheck_bamsplit'] = {'cases': len(bsmall), 'mismatches': nm2}
         if not okv:
             raise fw.Broken('extraction', 'vm_compute and extracted model disagree: ' + log[-800:])
         if spec_false and not dis:
@@ -409,40 +489,70 @@ class Prop(fw.PropBase):
     def search(self):
         runs = getattr(self, 'runs', None) or self.run_everything()
         found = {}
+        fq_iter = iter(getattr(self, 'fastq_inputs', []))
         for l, c, r in runs:
+            fc = next(fq_iter, None) if l == 'fastq' else None
             if c is None:
-                found.setdefault('harness-error', (l, c, r, r.get('error', '')))
+                found.setdefault('harness-error', (l, c, r, r.get('error', ''), fc, (True, 0)))
                 continue
             for key, text in spec_violations(c, r):
-                if key not in found or len(c['ops']) < len(found[key][1]['ops']):
-                    found[key] = (l, c, r, text)
+                # prefer direct HandleLimiter runs, then fewer operations
+                rank = (l != 'limiter', len(c['ops']))
+                if key not in found or rank < found[key][5]:
+                    found[key] = (l, c, r, text, fc, rank)
         order = ['retry-keyerror', 'livelock', 'other-exception', 'content', 'raise-under-good-script', 'raise-not-hopeless',
                  'invalid-file', 'leak', 'close-raised', 'foreign-path', 'harness-error']
         keys = sorted(found, key=lambda k: order.index(k) if k in order else 99)
-        jobs = [{'key': k, 'case': found[k][1]} for k in keys if found[k][1] is not None and k != 'harness-error']
+        jobs = []
+        for k in keys:
+            l, c = found[k][0], found[k][1]
+            if c is None or k == 'harness-error':
+                continue
+            if l == 'fastq':
+                jobs.append({'key': k, 'fastq': found[k][4]})
+            elif l == 'limiter':
+                jobs.append({'key': k, 'case': c})
         shrunk = {}
         try:
-            rs = fw.run_impl('impl_c19.py', {'shrink': jobs}, timeout=600)['shrink']
+            rs = fw.run_impl('impl_c19.py', {'shrink': jobs}, timeout=900)['shrink']
             for j, r in zip(jobs, rs):
                 if not r.get('error'):
-                    shrunk[j['key']] = (r['case'], r['res'])
+                    shrunk[j['key']] = r
         except Exception as e:
             self.notes.append('shrinking failed: %r' % (e,))
         for key in keys:
-            l, c, r, text = found[key]
+            l, c, r, text, fc = found[key][:5]
             if c is None:
                 self.witnesses.append({'key': key, 'what': text, 'input': None})
                 continue
+            entry = 'HandleLimiter'
+            inp = c
             if key in shrunk:
-                c2, r2 = shrunk[key]
+                sh = shrunk[key]
+                c2, r2 = (fastq_as_case(sh['fastq'], sh['res']) if l == 'fastq' else sh['case']), sh['res']
                 vs = [t for k, t in spec_violations(c2, r2) if k == key]
                 if vs:
                     c, r, text = c2, r2, vs[0]
+                    inp = sh['fastq'] if l == 'fastq' else c2
+            if l == 'fastq':
+                entry = 'FastqHandle(single_cell=True) -> HandleLimiter'
             exp = expected_files(c, len(c['ops']))
             self.witnesses.append({
-                'key': key, 'what': 'HandleLimiter(maxHandles=%r, pruneEvery=%r), pre-existing files %r, writes %r, fault script %r: %s'
-                                    % (c['maxHandles'], c['pruneEvery'], c['init'],
+                'key': key, 'what': '%s(maxHandles=%r, pruneEvery=%r), pre-existing files %r, writes %r, fault script %r: %s'
+                                    % (entry, c['maxHandles'], c['pruneEvery'], c['init'],
                                        [(o[0], o[1]) + (('forceAppend',) if o[2] else ()) for o in c['ops']][:12], c['script'], text),
-                'input': c, 'impl': {k: r.get(k) for k in ('k', 'status', 'files', 'trace', 'leaked', 'read_errors')},
+                'input': inp, 'impl': {k: r.get(k) for k in ('k', 'status', 'files', 'trace', 'leaked', 'read_errors')},
                 'expected': {'status': 'no exception unless open() fails with no other handle open',
                              'files': sorted(exp.items())}})
+        # bamSplitByTag
+        bfound = {}
+        for c, r in getattr(self, 'bruns', []):
+            for key, text in bam_violations(c, r):
+                rank = (c['max_handles'] < 1, len(c['reads']))
+                if key not in bfound or rank < bfound[key][3]:
+                    bfound[key] = (c, r, text, rank)
+        for key, (c, r, text, _rank) in sorted(bfound.items()):
+            self.witnesses.append({'key': key, 'what': 'bamSplitByTag main loop, max_handles=%r, tag values of the reads %r: %s'
+                                                        % (c['max_handles'], c['reads'][:40], text),
+                                   'input': c, 'impl': {k: r.get(k) for k in ('status', 'passes', 'max_open', 'done', 'files')},
+                                   'expected': {'files': bam_expected(r) if not r.get('error') else None}})
